@@ -5,14 +5,14 @@
     and real-time scheduling delays are outside the model. *)
 From Rumqtt Require Import Client.KeepAlive Client.KeepAliveProofs Client.State4 Client.Run4.
 
-Theorem c18_ka_period : forall ka c tr s' outs, 0 < ka ->
+Theorem c18_ka_period : forall ka c tr s' outs, 0 < ka -> existsb is_fail tr = false ->
   prompt ka (fst (kstep ka kinit (Connect c))) tr = true ->
   krun ka (fst (kstep ka kinit (Connect c))) tr = (s', outs) -> no_err outs = true ->
   exists n, outs = pings (c + ka) ka n /\ deadline s' = Some (c + ka + N.of_nat n * ka).
 Proof. exact ka_period. Qed.
 
 Theorem c18_ka_detect : forall ka tr s d s' outs,
-  deadline s = Some d -> await s = true ->
+  deadline s = Some d -> await s = true -> existsb is_fail tr = false ->
   prompt ka s tr = true -> existsb is_pingresp tr = false -> List.In (Tick d) tr ->
   krun ka s tr = (s', outs) ->
   exists rest, outs = ErrAwait d :: rest \/ (outs = ErrCollision d :: rest /\ (coll s = true \/ existsb is_parked tr = true)).
@@ -22,7 +22,7 @@ Theorem c18_ka_detect_second_interval : forall ka p sil, p <= sil -> (p + ka) + 
 Proof. exact ka_detect_second_interval. Qed.
 
 Theorem c18_ka_no_false_alarm : forall ka tr s s' outs,
-  coll s = false -> existsb is_parked tr = false ->
+  coll s = false -> existsb is_parked tr = false -> existsb is_fail tr = false ->
   (await s = true -> exists d, deadline s = Some d /\ existsb (reply_before d) tr = true) ->
   sorted tr = true -> prompt ka s tr = true -> answered ka s tr = true ->
   krun ka s tr = (s', outs) -> no_err outs = true.
@@ -60,3 +60,14 @@ Theorem c18_v5_server_ka_zero_refuted_before_fix :
   snd (krun_v5_orig 0 kinit [Connect 0; Tick 0; Tick 0]) = [PingReqAt 0; ErrAwait 0]
   /\ snd (krun 0 kinit [Connect 0; Tick 0; Tick 0; Tick 100000]) = [].
 Proof. exact v5_server_ka_zero_refuted. Qed.
+
+Theorem c18_ka_no_false_alarm_after_reconnect : forall ka s t0 c tr s' outs, 0 < ka ->
+  existsb is_parked tr = false -> existsb is_fail tr = false ->
+  sorted tr = true ->
+  prompt ka (fst (kstep ka (fst (kstep ka s (ConnFail t0))) (Connect c))) tr = true ->
+  answered ka (fst (kstep ka (fst (kstep ka s (ConnFail t0))) (Connect c))) tr = true ->
+  krun ka (fst (kstep ka (fst (kstep ka s (ConnFail t0))) (Connect c))) tr = (s', outs) -> no_err outs = true.
+Proof. exact ka_no_false_alarm_after_reconnect. Qed.
+
+Theorem c18_error_runs_clean : forall s t, is_err (snd (kping s t)) = true -> fst (kping s t) = kclean s.
+Proof. exact error_is_clean. Qed.
